@@ -36,7 +36,8 @@ CLAIMS['C10'] = {
             'append by `not closed` and of every receive-side StreamClosed by evidence of an '
             'empty buffer, wake-up pairing inside one atomic block, FIFO discipline of buffer '
             'and waiter list, the whole receive under the read mutex, iteration yields exactly '
-            'the received values. Per-consumer value sequences are runtime histories and are '
+            'the received values; the Lock discipline (rules of C09) of the mutex that orders '
+            'the receivers. Per-consumer value sequences are runtime histories and are '
             'not decided.',
     'note': _NOTE,
 }
@@ -45,7 +46,9 @@ CLAIMS['C11'] = {
             '(all signal classes at every suspension/yield), broadcast loop over all buffers '
             'plus wake-all in one atomic block under `not closed`, the order of the '
             'empty/closed tests on every leaving path, pop->yield window, FIFO buffer '
-            'operations. Message sequences as values are not decided.',
+            'operations; each subscription registers under a fresh key of its own (same-object '
+            'identity followed through locals and helpers). Message sequences as values are '
+            'not decided.',
     'note': _NOTE,
 }
 
@@ -55,7 +58,8 @@ CLAIMS['C13'] = {
             'rescale, scale store -> wake all in one atomic block, waits inside the '
             'congestion subscription), and the fluid-model formulas (scale, planned delay, '
             'accounting, window order, unbounded delay) compared as rational-function normal '
-            'forms with roles discovered from the code. The numeric claim that completion '
+            'forms with roles discovered from the code; the registered share is the requested '
+            'limit, unclamped. The numeric claim that completion '
             'times equal the integral up to rounding is not decided.',
     'note': _NOTE,
 }
